@@ -9,8 +9,13 @@ from harness.common import run_cases, ints, coq_list, zlit
 from harness.impl import quiet
 
 HEADER = """From Coq Require Import ZArith List Bool.
-From OQ Require Import Lib.RingSum Lib.Mat Model.PathSum Model.Glue.
-Import ListNotations. Open Scope Z_scope."""
+From OQ Require Import Lib.RingSum Lib.Mat Model.PathSum Model.Glue Proofs.PathSumFree.
+Import ListNotations. Open Scope Z_scope.
+(* right-hand side of theorem gibbs_zero_coupling: the plain product of half-slice propagators *)
+Definition gibbs_free_flat (d : nat) (P : list (list Z)) (n : nat) : list Z :=
+  let col := fun b => @free ZRing (@mid ZRing d) (@mid ZRing d) (fun _ => (P, P))
+                            (map (fun i => if Nat.eqb i b then 1 else 0) (seq 0 d)) n in
+  flat_map (fun a => map (fun b => nth a (col b) 0) (seq 0 d)) (seq 0 d)."""
 
 LN2 = np.log(2.0)
 SX, SY, SZ = (oqupy.operators.sigma(a) for a in "xyz")
@@ -39,6 +44,8 @@ def run(chk):
         n = rng.randint(1, 4 if d == 2 else 3)
         o = [rng.randint(0, 2) for _ in range(d)]
         ms = [rng.randint(0, 1) for _ in range(n + 2)]
+        if it % 4 == 3:
+            ms = [0] * (n + 2)          # zero coupling: the network must be the free product (gibbs_zero_coupling)
         P = np.array([[rng.randint(-1, 2) for _ in range(d)] for _ in range(d)], dtype=float)
         coeffs = lambda k: complex(-ms[k] * LN2, 0.0)
         ops = (-np.array(o, dtype=float), np.array(o, dtype=float), np.zeros(d))
@@ -53,6 +60,10 @@ def run(chk):
             expected.append(np.array(b.data[k]).T.reshape(-1))
             meta.append(dict(info, slices=k))
             chk.case(meta[-1], ("backend", d, n, tuple(o), tuple(ms), k))
+            if not any(ms):
+                exprs.append(f"gibbs_free_flat {d} {zmat_lit(P)} {k}")
+                expected.append(np.array(b.data[k]).T.reshape(-1))
+                meta.append(dict(info, slices=k, kind="backend-zero-coupling-vs-free-product"))
         chk.count("backend_d%d" % d)
 
     vals, errs = run_cases("C11", HEADER, exprs, chunk=40)
@@ -123,4 +134,4 @@ def run(chk):
              "2-3, 1-4 slices (every intermediate read-out); GibbsTempo on commuting models (all cut-offs, T, n_steps in {4,10,25}), complex "
              "Hermitian Hamiltonians at zero and weak coupling, repeated compute(); distinct = distinct configuration",
         assumptions=["accuracy of the Matsubara quadrature is explored, not proved",
-                     "'at zero coupling the result is exp(-H/T)/Z' is established by the search (1e-8), the theorem covers the commuting case"])
+                     "at zero coupling the network is the product of the half-slice propagators (theorem gibbs_zero_coupling, tied to TIBaseBackend exactly); that this product is exp(-H/T) is expm's semigroup law, observed by the search at 1e-8"])
